@@ -491,9 +491,33 @@ func c02r1(p *Prog, r *Reporter) {
 			}
 			if isCallTo(site, rec) {
 				okc := false
-				for _, s2 := range callsIn(fn) {
-					if sc := s2.Common().StaticCallee(); sc != nil && typeName(recvType(sc)) == "archetype" && (cname(sc) == "Remove" || cname(sc) == "Reset") {
-						okc = true
+				// the function itself, or - for an unexported helper with a single caller - that caller
+				chain := []*ssa.Function{fn}
+				for g, d := fn, 0; d < 2 && g.Object() != nil && !g.Object().Exported(); d++ {
+					var caller *ssa.Function
+					k := 0
+					for _, h := range p.Funcs {
+						if h.Synthetic != "" {
+							continue
+						}
+						for _, s3 := range callsIn(h) {
+							if isCallTo(s3, g) {
+								k++
+								caller = h
+							}
+						}
+					}
+					if k != 1 || caller == g {
+						break
+					}
+					chain = append(chain, caller)
+					g = caller
+				}
+				for _, g := range chain {
+					for _, s2 := range callsIn(g) {
+						if sc := s2.Common().StaticCallee(); sc != nil && typeName(recvType(sc)) == "archetype" && (cname(sc) == "Remove" || cname(sc) == "Reset") {
+							okc = true
+						}
 					}
 				}
 				r.Check(okc, name, "recycles a handle", p.Pos(site.Pos()), "the function that recycles a handle also removes / resets its row")
